@@ -60,6 +60,9 @@ def quilt_cases(draw):
     elif op == 'window':
         case['size'] = draw(st.integers(1, 3))
         case['step'] = draw(st.integers(1, 2))
+        case['wopts'] = {'label_shift': draw(st.sampled_from([1, 0, -1, 2])), 'size_increment': draw(st.sampled_from([0, 1, 0])),
+                         'window_sized': not draw(st.booleans()), 'start_shift': draw(st.sampled_from([0, 0, 0, 0, 0, 0, 1, -1]))}  # (a shifted start extracts empty windows: listed finding, rare)
+        case['wform'] = draw(st.sampled_from(['values', 'items', 'array', 'array_items', 'apply']))
     elif op.startswith('iter'):
         case['iaxis'] = draw(st.integers(0, 1))
     elif op == 'head_tail':
@@ -220,7 +223,17 @@ def _check_quilt(case, tmp):
         if op == 'iter_items':
             return [(k, v) for k, v in obj.iter_array_items(axis=case['iaxis'])]
         if op == 'window':
-            return [(k, v) for k, v in obj.iter_window_items(size=case['size'], step=case['step'], axis=axis)]
+            kw = dict(size=case['size'], step=case['step'], axis=axis, **case.get('wopts', {}))
+            form = case.get('wform', 'items')
+            if form == 'items':
+                return [(k, v) for k, v in obj.iter_window_items(**kw)]
+            if form == 'values':
+                return list(obj.iter_window(**kw))
+            if form == 'array':
+                return list(obj.iter_window_array(**kw))
+            if form == 'array_items':
+                return [(k, v) for k, v in obj.iter_window_array_items(**kw)]
+            return obj.iter_window(**kw).apply(lambda w: w.shape)
         raise AssertionError(op)
 
     want = lib(run, ref)
@@ -407,6 +420,13 @@ def tag(case, f):
                 return 'quilt-empty-selection-raises'
         except Exception:  # noqa: BLE001
             pass
+    # windows whose extent is empty (shifted start) are extracted before they are judged invalid: the same empty selection
+    if op == 'window' and case.get('wopts', {}).get('start_shift', 0) != 0 and (
+            (f.kind == 'raised:UnboundLocalError' and 'component_is_series' in f.detail) or (f.kind == 'raised:RuntimeError' and 'StopIteration' in f.detail)):
+        return 'quilt-empty-selection-raises'
+    # apply() over no window at all on a quilt with retained (hierarchical) labels: the empty result index cannot be built
+    if op == 'window' and case.get('wform') == 'apply' and case.get('retain') and f.kind == 'raised:ErrorInitIndexLevel' and 'zero length index' in f.detail:
+        return 'quilt-window-apply-without-windows-hierarchical-raises'
     # non-ascending keys on the quilt axis: order inside a member is lost / a member is revisited
     if op in ('iloc', 'loc', 'getitem') and not case['ascending_only']:
         try:
